@@ -66,6 +66,16 @@ def handle (j : Json) : Except String Json := do
         ("duration", toJson t.duration),
         ("signals", Json.arr (t.signals.map (fun (at_, sg) =>
           Json.arr #[toJson at_, Json.str (match sg with | .term => "term" | .kill => "kill")])).toArray)]
+  -- several clients alive at once: every child reaped within the bound, every request answered by its own child only
+  if let .ok (.arr cl) := j.getObjVal? "concurrent" then
+    let p ← getPath j
+    let bs ← cl.toList.mapM getBehaviour
+    let ok := bs.all (fun b => match leave Design.sound os p (childSpec b (.after 1)) { backlog := 0, capacity := 131072 } with
+      | some t => t.child == ChildState.reaped && decide (t.duration ≤ graceTermMs + graceKillMs)
+      | none => false)
+    return Json.mkObj [("raised_on_enter", Json.bool false), ("child", Json.str (if ok then "reaped" else "running")),
+      ("bounded", Json.bool ok),
+      ("requests", toJson (bs.map (fun b => if answers b 1 then "returned" else "timeout")))]
   let b ← getBehaviour j
   let p ← getPath j
   if (← j.getObjValAs? String "moment") == "entry" then
